@@ -31,10 +31,15 @@ from vlib import cz, cn, cbool, clist, cbytes
 PID = "C24"
 AREA = "Repl"
 P = "Arc.Repl.Props"
-THEOREMS = [(P, "C24_applied_sound"), (P, "C24_unforgeable_covers_edits"), (P, "C24_checkpoint_binds"), (P, "C24_gap_free_when_ordered"),
-            (P, "C24_writer_seq_exactly_once"), (P, "C24_writer_order_refuted"), (P, "C24_healthy_connection_dropped"),
-            (P, "C24_writer_order_guarded"), (P, "C24_writer_order_fixed"), (P, "C24_complete"),
-            (P, "C24_case_in_domain"), (P, "C24_oracle_meaning"), (P, "C24_agreeing_receiver_is_sound")]
+THEOREMS = [
+    # primary: the protocol /repo implements since 0ff8801 (assign + enqueue in one critical section)
+    (P, "C24_complete"), (P, "C24_writer_order_fixed"), (P, "C24_applied_sound"), (P, "C24_payload_integrity"),
+    (P, "C24_applied_payloads_appended"), (P, "C24_gap_free_when_ordered"), (P, "C24_writer_seq_exactly_once"),
+    (P, "C24_checkpoint_binds"), (P, "C24_unforgeable_covers_edits"),
+    # tie lemmas
+    (P, "C24_case_in_domain"), (P, "C24_oracle_meaning"), (P, "C24_agreeing_receiver_is_sound"),
+    # statements about the previous variant (assignment and channel send as two steps)
+    (P, "C24_writer_order_refuted"), (P, "C24_healthy_connection_dropped"), (P, "C24_writer_order_guarded")]
 MODULES = [P]
 TIE_NAME = ("C24 correspondence (wal.Writer hook + replication.Sender + Receiver.receiveLoop under forced schedules "
             "and a frame-rewriting adversary vs Arc.Repl.Model.run_sched/send_all/recv)")
@@ -121,7 +126,7 @@ def run_harness(cases, tag):
     if len(res) != len(cases):
         raise vlib.TieBroken("C24 harness returned %d results for %d cases" % (len(res), len(cases)))
     for r in res:                                   # Go nil slices arrive as null
-        for k in ("events", "frames", "chan", "dropped", "wire", "skipped_ops", "atts", "blocked_in"):
+        for k in ("events", "frames", "chan", "dropped", "wire", "skipped_ops", "atts", "blocked_in", "assigned"):
             if r.get(k) is None:
                 r[k] = []
         if r.get("other_tags") is None:
@@ -336,7 +341,7 @@ def gen_case(rng, cid, atomic):
     if rng.random() < 0.2:
         recv["outcomes"] = [rng.choice([0, 0, 0, 1, 2, 3]) for _ in range(rng.randint(1, n + 1))]
     return {"id": cid, "atomic": atomic, "cap": cap, "interval": interval, "writers": writers, "sched": sched,
-            "edits": edits, "recv": recv, "shape": shape}
+            "edits": edits, "recv": recv, "shape": shape, "procs1": rng.random() < 0.35}
 
 
 def witness_case(cid, atomic, probe=False):
@@ -442,6 +447,25 @@ def branch_cases(atomic):
                     "edits": [], "recv": dict(recv0), "shape": "branch"})
     out.append({"id": 0, "atomic": atomic, "cap": 1, "interval": 1, "writers": w3, "sched": seq_sched(w3, atomic, drain=False),
                 "edits": [], "recv": dict(recv0), "shape": "branch"})
+    return out
+
+
+def aliasing_cases(atomic):
+    """Value semantics of a queued entry: the link is slow (the distribution loop is held) while
+    several appends of same-size, different payloads go through; only then the queue is drained.
+    A queued entry that aliases a buffer the writer path reuses shows up as a wire/applied payload
+    that was never appended under that sequence (case_oracle_payload).  Run on one P so that a
+    recycled buffer (sync.Pool) is actually handed to the next append."""
+    recv0 = {"last0": 0, "key": "same", "secret": "same", "cluster": "same", "skew": 0, "outcomes": [], "localwal": False}
+    out = []
+    for kinds, size, interval, db in [(["walmeta"] * 2, 4, 1024, "db"), (["walmeta"] * 3, 8, 2, "db"), (["walmeta"] * 5, 16, 1024, "metrics"),
+                                      (["walmeta", "wal", "walmeta", "direct", "walmeta"], 6, 3, "db"), (["wal"] * 3, 5, 1024, ""),
+                                      (["direct"] * 3, 5, 2, ""), (["walmeta"] * 4, 1, 1, ""), (["walmeta"] * 8, 32, 4, "a")]:
+        ws = [{"kind": k, "db": db if k == "walmeta" else "", "payload": bytes([0x10 * (i + 1) + j for j in range(size)]).hex()}
+              for i, k in enumerate(kinds)]
+        for procs1 in (True, False):
+            out.append({"id": 0, "atomic": atomic, "cap": 64, "interval": interval, "writers": ws, "sched": seq_sched(ws, atomic),
+                        "edits": [], "recv": dict(recv0), "shape": "aliasing", "procs1": procs1})
     return out
 
 
@@ -611,6 +635,7 @@ def case_to_coq(c, r, tol):
         clist([m.frame(f) for f in (r["frames"] or [])]),
         clist(["(mkEntry %s %s)" % (cz(e["seq"]), m.b(bytes.fromhex(e["payload"]))) for e in (r["chan"] or [])]),
         clist([cz(x) for x in (r["dropped"] or [])]), cz(r["walseq"]), cz(r["nextseq"]),
+        clist([cz(x) for x in (list(r.get("assigned") or []) + [0] * len(c["writers"]))[:len(c["writers"])]]),
         "(mkR %s %s %s %s %s)" % (cn(key), cn(sec), cn(clu), cz(r["now"]), cz(tol)),
         cz(rc["last0"]), clist([cbool(o in (0, 1)) for o in rc["outcomes"]]),
         cbool(not c["edits"]), clist([m.frame(f) for f in (r["wire"] or [])]),
@@ -623,7 +648,7 @@ def case_to_coq(c, r, tol):
 HEADER = ("From Coq Require Import List ZArith NArith Bool.\nFrom Arc Require Import Repl.Model.\nImport ListNotations.\n"
           "Open Scope Z_scope.\n")
 PREDS = {"agree": "case_agrees", "sound": "case_oracle_sound", "order": "case_oracle_order", "excl": "case_exclusive",
-         "queue": "case_queue_increasing", "dom": "case_unforgeable"}
+         "queue": "case_queue_increasing", "dom": "case_unforgeable", "payload": "case_oracle_payload"}
 PREDS_DIAG = dict(PREDS, writer="writer_agrees", receiver="receiver_agrees")
 
 
@@ -643,9 +668,17 @@ def evaluate(cases, results, tol, name, preds=None):
     preds = preds or PREDS
     out = {k: set() for k in preds}
     if terms:
-        res = vlib.coq_check_cases(PID, HEADER, "ccase", terms, preds, chunk=500, name=name)
-        for k, lst in res.items():
-            out[k] = {idx[j] for j in lst}
+        # parsing the case terms dominates; evaluate a few chunks side by side
+        from concurrent.futures import ThreadPoolExecutor
+        step = max(60, min(400, (len(terms) + 3) // 4))
+        offs = list(range(0, len(terms), step))
+
+        def one(off):
+            return off, vlib.coq_check_cases(PID, HEADER, "ccase", terms[off:off + step], preds, chunk=step, name="%s_p%d" % (name, off))
+        with ThreadPoolExecutor(max_workers=4) as ex:
+            for off, res in ex.map(one, offs):
+                for k, lst in res.items():
+                    out[k] |= {idx[off + j] for j in lst}
     return out, errors
 
 
@@ -767,6 +800,11 @@ def run(res, tier, seed):
         "interleaving granularity: one step = one critical section / atomic / channel operation (w.mu section, s.sequence.Add, channel send, channel receive+broadcast)",
     ]
 
+    if tier == "thorough":
+        ok, _ = vlib.coqchk_stage(res, MODULES)
+        if not ok:
+            failed.append(("coqchk", "coqchk rejected Arc.Repl.Props or reported inadmissible axioms"))
+
     t1 = time.time()
     atomic, probe = probe_mode()
     res.stage("probe", t1)
@@ -774,10 +812,11 @@ def run(res, tier, seed):
     res.cov["probe"] = {"witness_wire_order": [f["seq"] for f in probe["frames"] if f["type"] == 0x10], "receiver_reason": probe.get("reason"),
                         "second_writer_blocked_in": probe.get("blocked_in")}
 
-    n = 330 if tier == "quick" else 6000
+    n = 240 if tier == "quick" else 6000
     cases = [witness_case(0, atomic)] if not atomic else []
     cases += corpus_cases(atomic, len(cases))
     cases += branch_cases(atomic)
+    cases += aliasing_cases(atomic)
     base = len(cases)
     cases += [gen_case(rng, base + i, atomic) for i in range(n)]
     for i, c in enumerate(cases):
@@ -793,7 +832,7 @@ def run(res, tier, seed):
 
     known = [k for k in vlib.known_for(PID) if k.get("signature") == SIGNATURE]
     res.cov["evaluations"] = len(cases)
-    keyset = {json.dumps({k: c[k] for k in ("cap", "interval", "writers", "sched", "edits", "recv")}, sort_keys=True)
+    keyset = {json.dumps({k: c.get(k) for k in ("cap", "interval", "writers", "sched", "edits", "recv", "procs1")}, sort_keys=True)
               for c, r in zip(cases, results) if nontrivial(c, r)}
     res.cov["distinct_nontrivial"] = len(keyset)
     res.cov["rule"] = ("forced writer schedules (1-16 goroutines through wal.AppendRaw / AppendRawWithMeta hook or Sender.Replicate, random payload sizes, "
@@ -805,7 +844,7 @@ def run(res, tier, seed):
     res.cov["cases_outside_mac_hypothesis"] = len(outside)
     order_fail = sorted(bad["order"] - bad["dom"])
     sound_fail = sorted(bad["sound"] - bad["dom"])
-    res.cov["oracle_failures"] = len(set(order_fail) | set(sound_fail))
+    res.cov["oracle_failures"] = len(set(order_fail) | set(sound_fail) | bad["payload"])
     hist = {"writers": {}, "shape": {}, "edit_ops": {}, "reasons": {}, "non_exclusive_schedules": 0, "drops_reported": 0,
             "apply_failures": 0, "checkpoints_emitted": 0, "honest_wire": 0, "frames_on_wire": 0}
     for i, (c, r) in enumerate(zip(cases, results)):
@@ -846,8 +885,21 @@ def run(res, tier, seed):
         res.violation("harness could not drive case %d: %s" % (i, msg), replay_obj("harness-error", cases[i], results[i], {"detail": msg}),
                       no_input=True, suffix="harness")
         reported = True
+    # 2a. payload integrity fails on the implementation's own output: concrete input
+    payload_fail = sorted(bad["payload"])
+    res.cov["payload_oracle_failures"] = len(payload_fail)
+    for i in payload_fail[:2]:
+        small = shrink_case(cases[i], fails_with("payload"), budget=6) if len(payload_fail) < 40 else cases[i]
+        rr = run_harness([dict(small, id=0)], "shrink")[0]
+        exp = {str(a): w for a, w in zip(rr.get("assigned") or [], small["writers"])}
+        res.violation("an entry on the wire / applied by the receiver carries a payload that was never appended under its sequence "
+                      "(a queued entry changed after Sender.Replicate accepted it)",
+                      replay_obj("oracle-payload", small, rr, {"appended_by_sequence": exp,
+                                 "wire_payload_by_sequence": {str(f["seq"]): f["payload"] for f in rr["frames"] if f["type"] == 0x10},
+                                 "applied_payloads": [a["payload"] for a in rr["atts"] if a["ok"]]}), suffix="payload")
+        reported = True
     # 2. soundness oracle fails on the implementation: always a violation, concrete input
-    for i in sound_fail[:2]:
+    for i in ([] if reported else sound_fail[:2]):
         small = shrink_case(cases[i], fails_with("sound")) if len(sound_fail) < 40 else cases[i]
         rr = run_harness([dict(small, id=0)], "shrink")[0]
         res.violation("the real receiver/sender violated soundness (applied entry not sent / not strictly increasing / sequence not accounted for exactly once)",
@@ -922,7 +974,8 @@ def replay(res, path):
         sum(1 for a in (r[0].get("atts") or []) if a["ok"]), r[0].get("last"), r[0].get("reason")))
     print("model disagrees:", 0 in bad["agree"], "| soundness oracle fails:", 0 in bad["sound"],
           "| order/completeness oracle fails:", 0 in bad["order"], "| known finding:", bool(is_known and 0 in bad["order"]), "| harness errors:", errors)
-    if errors or 0 in bad["agree"] or 0 in bad["sound"]:
+    print("payload-integrity oracle fails:", 0 in bad["payload"])
+    if errors or 0 in bad["agree"] or 0 in bad["sound"] or 0 in bad["payload"]:
         return 1
     if 0 in bad["order"]:
         return 1        # the property fails on this input (known or not)
